@@ -17,6 +17,7 @@ mod report;
 mod rng;
 mod sched;
 mod simfs;
+mod watchdog;
 mod world;
 
 use batch::Tier;
@@ -68,11 +69,13 @@ fn main() {
                 eprintln!("HARNESS ERROR: no check for property {}", prop);
                 std::process::exit(2);
             };
+            watchdog::spawn(watchdog::Mode::Check { prop: prop.clone(), tier: tier.name().to_string() });
             std::process::exit(batch::run_check(&spec, tier));
         }
         Some("replay") => {
             let path = args.get(2).unwrap_or_else(|| usage());
             let rf = report::read_replay(std::path::Path::new(path));
+            watchdog::spawn(watchdog::Mode::Replay { prop: rf.property.clone(), signature: rf.signature.clone(), path: path.clone() });
             let res = checks::exec_case(&rf.case);
             println!("replay of {} (property {}, expected signature {})", path, rf.property, rf.signature);
             if let Some(d) = res.replay_diverged {
@@ -97,6 +100,26 @@ fn main() {
                 std::process::exit(0);
             }
         }
+        Some("verify-replay") => {
+            // Fresh-process verification of a replay file written for a run that did not terminate
+            // (the check process re-executes itself into this mode, see watchdog.rs).
+            let path = args.get(2).unwrap_or_else(|| usage());
+            let rf = report::read_replay(std::path::Path::new(path));
+            let exe = std::env::current_exe().expect("current_exe");
+            let out = std::process::Command::new(exe).arg("replay").arg(path).output().expect("spawn replay");
+            let stdout = String::from_utf8_lossy(&out.stdout).to_string();
+            let want = format!("REPRODUCED signature={}", rf.signature);
+            let known = report::KnownFindings::load();
+            for k in known.findings.iter().filter(|k| k.property == rf.property) {
+                println!("KNOWN-FINDING: property={} {} (signature '{}')", rf.property, k.what, k.signature);
+            }
+            if stdout.lines().any(|l| l.trim() == want.trim()) {
+                println!("VIOLATION property={} replay={}", rf.property, path);
+                std::process::exit(1);
+            }
+            eprintln!("HARNESS ERROR: replay of {} in a fresh process did not reproduce the violation: exit={:?}; stdout tail: {}", path, out.status.code(), stdout.lines().rev().take(6).collect::<Vec<_>>().join(" | "));
+            std::process::exit(2);
+        }
         Some("exec-case") => {
             // child mode: one case on stdin, its result as one "RESULT <json>" line on stdout
             let mut input = String::new();
@@ -106,6 +129,7 @@ fn main() {
                 eprintln!("HARNESS ERROR: bad case on stdin: {}", e);
                 std::process::exit(2);
             });
+            watchdog::spawn(watchdog::Mode::Child);
             let res = checks::exec_case(&case);
             println!("RESULT {}", serde_json::to_string(&res).unwrap());
             std::process::exit(0);
